@@ -327,6 +327,24 @@ pub fn c13_endpoint_scenario() -> Scenario {
     Scenario { name, d: 0, run: Box::new(run) }
 }
 
+
+/// C12 at the API: TimeSensitive and Unreliable packets handed to Client::send while the client is still connecting (they wait in the
+/// pending client; the handshake datagrams are held, lost or delivered in every combination), right after Connect, and by the server.
+pub fn c12_api_specs(quick: bool) -> Vec<EwSpec> {
+    let mut v = Vec::new();
+    use SendMode::*;
+    for (name, first) in [("ts-first", TimeSensitive), ("unreliable-first", Unreliable)] {
+        let cfg = EwCfg::new(1);
+        let second = if first == TimeSensitive { Unreliable } else { TimeSensitive };
+        let script = vec![at(0, Act::Connect(0)), at(0, Act::CSend(0, 0, first, 40)), at(1, Act::CSend(0, 0, second, 41)), at(2, Act::CSend(0, 1, TimeSensitive, 42)),
+                          after_c(0, 1, Act::CSend(0, 2, TimeSensitive, 43)), after_c(0, 1, Act::CSend(0, 2, Unreliable, 44)), after_s(0, 1, Act::SSend(0, 0, TimeSensitive, 45)), after_s(0, 2, Act::SSend(0, 0, Unreliable, 46))];
+        let mut env = EwEnv::basic(6, 60);
+        env.fates = &[DFate::Deliver, DFate::Hold2, DFate::Drop, DFate::HoldLong]; env.fate_types = &[0, 1, 2]; env.fates_free = true; env.long_hold = 5; env.deltas = &[100]; env.fair_delta = 100; env.stop_when_done = false;
+        v.push(EwSpec { tag: format!("C12.api.pending-client.{}", name), cfg, script: Arc::new(script), env, d: if quick { 0 } else { 1 }, oracles: EO_C12 | EO_C08, n_raw: 0 });
+    }
+    v
+}
+
 pub fn c07(quick: bool) -> PropRun {
     let (own, custom) = c07_parts(quick);
     let scs = assemble(own, custom, quick, "C07", EO_C07 | EO_C08);
@@ -740,7 +758,13 @@ pub fn c09_parts(quick: bool) -> (Vec<EwSpec>, Vec<Scenario>) {
                 // blackout from any round after the call (one or both directions, permanent)
                 let mut envb = EwEnv::basic(if quick { 6 } else { 10 }, 140);
                 envb.dev_start = 4; envb.fates = DF_NONE; envb.deltas = &[100]; envb.fair_delta = 500; envb.blackouts = &[1, 2, 3];
-                scs.push(sc(&format!("C09.blackout.{}.{}{}", lname, if who == 0 { "client" } else { "server" }, if now { "-now" } else { "" }), &cfg, script, envb, 1, EO_C09 | EO_C08));
+                scs.push(sc(&format!("C09.blackout.{}.{}{}", lname, if who == 0 { "client" } else { "server" }, if now { "-now" } else { "" }), &cfg, script.clone(), envb.clone(), 1, EO_C09 | EO_C08));
+                // the same blackouts ending again: after 2 s, 10 s, and at every half second around the end of the 22 s retry budget (a reply that
+                // gets through between the last retransmission and the moment of giving up)
+                if lname == "none" || lname == "one" {
+                    let mut envt = envb; envt.blackout_lens = &[4, 20, 38, 39, 40, 41, 42, 43, 44, 45, 46]; envt.max_rounds = 170;
+                    scs.push(sc(&format!("C09.blackout-ends.{}.{}{}", lname, if who == 0 { "client" } else { "server" }, if now { "-now" } else { "" }), &cfg, script, envt, 1, EO_C09 | EO_C08 | EO_C10));
+                }
             }
         }
     }
